@@ -227,8 +227,8 @@ def c17(tier, repo=None, only_cases=None):
         else:
             fams = [("n2-all", t_consts(Eager=True), None, {}),
                     ("n3-faults", t_consts(Eager=True, MaxCalls=3, MaxTools=3, MaxChunks=1, Behs=["ok", "fail", "panic"]), None, {}),
-                    ("n3-chunks", t_consts(Eager=True, MaxCalls=3, MaxTools=2, Behs=["ok", "failmid"], MaxFaulty=1, AllowUnknown=False), 60000, {"timeout": 1500}),
-                    ("n4-sim", t_consts(Eager=True, MaxCalls=4, MaxTools=3), 40000, {"simulate": "num=60000", "depth": 60, "timeout": 1200})]
+                    ("n3-chunks", t_consts(Eager=True, MaxCalls=3, MaxTools=2, Behs=["ok", "failmid"], MaxFaulty=1, AllowUnknown=False), 30000, {"timeout": 1500}),
+                    ("n4-sim", t_consts(Eager=True, MaxCalls=4, MaxTools=3), 20000, {"simulate": "num=30000", "depth": 60, "timeout": 1200})]
     cases, gen_stats, exhaustive = [], [], True
     for name, consts, limit, kw in fams:
         cs, run = generate(prop, name, consts, invariants=inv, **kw)
@@ -249,6 +249,7 @@ def c17(tier, repo=None, only_cases=None):
     for i, c in enumerate(cases):
         c.setdefault("id", "%s-%d" % (c.get("fam", "r"), i))
         c.setdefault("wrap", rnd.random() < 0.3)     # secondary dimension: tools built with components/tool/utils
+        c.setdefault("optlist", rnd.random() < 0.2)  # secondary dimension: tool list given per call (WithToolList)
 
     # ---- 3. replay on the real ToolsNode
     def run_cases(cs):
@@ -362,6 +363,8 @@ def c18_decorate(cases, rnd):
         c["api"] = "legacy" if rnd.random() < 0.3 else "tcm"
         c["pipe"] = rnd.random() < 0.4
         c["nested"] = rnd.random() < 0.25
+        if rnd.random() < 0.3:                       # two original messages instead of one
+            c["msgs"] = [{"role": "system", "content": "s0", "calls": [], "tcid": ""}] + c["msgs"]
     return cases
 
 
@@ -417,8 +420,8 @@ def c18(tier, repo=None, only_cases=None):
         if tier == "quick":
             fams = [("s3", r_consts(MaxMsgs=3, **gen), 2200, {})]
         else:
-            fams = [("s3", r_consts(MaxMsgs=3, MaxTools=3, **gen), 30000, {"timeout": 1500}),
-                    ("s4", r_consts(MaxMsgs=4, MaxTools=3, MaxSteps=[0, 2, 4, 5, 6], **gen), 30000, {"simulate": "num=40000", "depth": 120, "timeout": 1500})]
+            fams = [("s3", r_consts(MaxMsgs=3, MaxTools=3, **gen), 15000, {"timeout": 1500}),
+                    ("s4", r_consts(MaxMsgs=4, MaxTools=3, MaxSteps=[0, 2, 4, 5, 6], **gen), 15000, {"simulate": "num=20000", "depth": 120, "timeout": 1500})]
     cases, gen_stats, exhaustive = [], [], True
     for name, consts, limit, kw in fams:
         cs, run = generate(prop, name, consts, invariants=inv, **kw)
